@@ -39,10 +39,15 @@ func (propC17) Gen(seed uint64, tier string, idx int) *Plan {
 		burst := pickS(r, []int{1, 2, 5, 10})
 		p.Stack.PerIPPerMin = rate
 		p.Stack.Burst = burst
-		p.Stack.GlobalPerMin = pickS(r, []int{0, 0, 100000})
+		p.Stack.GlobalPerMin = pickS(r, []int{0, 0, 100000, 30, 120})
 		p.Stack.HealthPerMin = pickS(r, []int{0, 600})
 		p.Stack.TrustProxy = false
-		p.Sub = fmt.Sprintf("rate/%dpm/burst%d/global%d", rate, burst, p.Stack.GlobalPerMin)
+		if r.Chance(120) {
+			// the global limit alone ("rate limiting configured" all the same): it bounds every client
+			p.Stack.PerIPPerMin = 0
+			p.Stack.GlobalPerMin = rate
+		}
+		p.Sub = fmt.Sprintf("rate/%dpm/burst%d/global%d", p.Stack.PerIPPerMin, burst, p.Stack.GlobalPerMin)
 		interval := time.Minute / time.Duration(rate)
 		nConn := 1 + r.Pick(8)
 		keepAlive := r.Chance(400)
@@ -75,6 +80,13 @@ func (propC17) Gen(seed uint64, tier string, idx int) *Plan {
 			default:
 				op.Method = "GET"
 				op.Path = "/internal/health"
+				op.Body = BodySpec{Kind: "none"}
+			}
+			if r.Chance(120) {
+				// proxied paths that merely look like Olla's own health URL: they reach a backend,
+				// so they spend the ordinary budget
+				op.Method = "GET"
+				op.Path = pickS(r, []string{"/olla/" + epType + "/health", "/olla/proxy/health", "/olla/proxy/internal/health", "/olla/" + epType + "/v1/health"})
 				op.Body = BodySpec{Kind: "none"}
 			}
 			if r.Chance(200) {
@@ -188,7 +200,27 @@ func (propC17) Check(r *Run) []Violation {
 			}
 		}
 		rate := float64(sc.PerIPPerMin) / 60.0
-		for ip, as := range byIP {
+		if sc.GlobalPerMin > 0 {
+			// the global limit bounds all clients together, hence each of them: judged on the union
+			var all []adm
+			for _, as := range byIP {
+				all = append(all, as...)
+			}
+			byIP["*"] = all
+		}
+		var ips []string
+		for ip := range byIP {
+			ips = append(ips, ip)
+		}
+		sort.Strings(ips)
+		for _, ip := range ips {
+			as := byIP[ip]
+			rate := rate
+			if ip == "*" {
+				rate = float64(sc.GlobalPerMin) / 60.0
+			} else if sc.PerIPPerMin <= 0 {
+				continue
+			}
 			sort.Slice(as, func(i, j int) bool { return as[i].s < as[j].s })
 			worst := 0.0
 			var wd string
